@@ -18,6 +18,7 @@ fn lookup(engine: &str) -> Option<par::WorkerFn> {
         "crash" => Some(engines::crash::worker),
         "wire" => Some(engines::wire::worker),
         "wal" => Some(engines::wal::worker),
+        "btree" => Some(engines::btree::worker),
         _ => None,
     }
 }
@@ -31,6 +32,8 @@ fn check(prop: &str, tier: &str) -> i32 {
         "C03" => props_seq::c03(tier),
         "C20" => props_flat::c20(tier),
         "C17" => props_comp::c17(tier),
+        "C10" => props_comp::c10(tier),
+        "C11" => props_comp::c11(tier),
         "C04" => props_seq::c04(tier),
         "C07" => props_seq::c07(tier),
         "C09" => props_seq::c09(tier),
